@@ -188,6 +188,8 @@ WITNESSES = [
     ["objarray", [2, 2], [["list", [["int", 1], ["int", 2]]], ["tuple", [["int", 3]]], ["tuple", []], ["list", []]]],
     ["list", [["objarray", [2, 0], []], ["objarray", [0, 2], []], ["objarray", [], [["tuple", []]]], ["objarray", [1, 2, 1], [["dict", [[["str", "k"], ["ref", 0]]]], ["ref", 0]]]]],
     ["list", [["str", "\U0001f600é\x00\"\\\n"], ["bigint", str(10 ** 400)], ["float", "nan"], ["float", "-0x0.0p+0"]]],
+    # lone surrogates (not an adjacent high/low pair, which is finding C04-F4) in values and keys: json escapes them, nothing may try to encode them
+    ["dict", [[["str", "k\udc00"], ["str", "a\ud83dx"]], [["str", "plain"], ["list", [["str", "\ud800"], ["str", "\udfff\ud800"]]]]]],
     ["tuple", [["list", []], ["ref", 0], ["ref", 0]]],
     ["odict", [[["str", "b"], ["int", 1]], [["str", "a"], ["int", 2]]]],
     ["ndarray", ">f8", [2, 3], "F", 3, True],
